@@ -31,6 +31,10 @@ type c01Family struct {
 	Gen  func(r *Rand, idx int) c01Case
 }
 
+// c01MaxFile bounds every hostile file (the property quantifies over bounded inputs, "e.g. <= 64 KiB").
+// Exception: the tool-scripts family, whose point is scripts larger than a pipe buffer.
+const c01MaxFile = 64 * 1024
+
 const (
 	c01PathWorkflow = ".github/workflows/w.yml"
 	c01PathReusable = ".github/workflows/reusable.yml"
@@ -419,12 +423,12 @@ func c01MutateBytes(r *Rand, src string, other string) string {
 			b = append(b[:i:i], append([]byte(ph), b[j:]...)...)
 		case 11: // very long line
 			i := r.Intn(len(b) + 1)
-			n := []int{100, 5000, 70000}[r.Intn(3)]
+			n := []int{100, 5000, 60000}[r.Intn(3)]
 			b = append(b[:i:i], append(bytes.Repeat([]byte(r.Pick([]string{"a", "é", " ", "${{ x }} ", "[", "- "})), n), b[i:]...)...)
 		}
 	}
-	if len(b) > 256*1024 {
-		b = b[:256*1024]
+	if len(b) > c01MaxFile {
+		b = b[:c01MaxFile]
 	}
 	return string(b)
 }
@@ -658,7 +662,7 @@ var c01StringAlphabet = []string{"a", "z", "A", "0", "9", "*", "**", "?", "+", "
 
 func c01HostileString(r *Rand) string {
 	if r.Chance(1, 25) {
-		return strings.Repeat(r.Pick(c01StringAlphabet), []int{100, 3000, 70000}[r.Intn(3)])
+		return strings.Repeat(r.Pick(c01StringAlphabet), []int{100, 3000, 16000}[r.Intn(3)])
 	}
 	n := r.Range(0, 8)
 	var sb strings.Builder
@@ -741,7 +745,15 @@ func c01StringFamily(n int) *c01Family {
 	return &c01Family{Name: "hostile-strings", N: n, Gen: func(r *Rand, idx int) c01Case {
 		s := c01HostileString(r)
 		pos := c01StringPositions[idx%len(c01StringPositions)]
-		return c01Case{Files: c01StringFiles(pos, s), Mode: c01ModeFor(idx), Desc: "string " + strconv.Quote(truncate(s, 200)) + " at " + pos}
+		files := c01StringFiles(pos, s)
+		for k, v := range files {
+			if len(v) > c01MaxFile { // keep inside the size bound: shorten the hostile string
+				files = c01StringFiles(pos, s[:len(s)/8])
+				_ = k
+				break
+			}
+		}
+		return c01Case{Files: files, Mode: c01ModeFor(idx), Desc: "string " + strconv.Quote(truncate(s, 200)) + " at " + pos}
 	}}
 }
 
